@@ -277,7 +277,13 @@ fn inner(t: &mut Tape, rep: &mut WorldReport) {
             name: format!("{} (sibling request)", target.name),
             args: sib_args,
             max_rounds: target.max_rounds,
-            ending: Ending::Natural,
+            // it may also have been cut short: a retry of a request that hit a store error or was
+            // cancelled is the everyday case of "the same request again"
+            ending: match t.weighted(&[3, 1, 1]) {
+                0 => Ending::Natural,
+                1 => Ending::ErrAtCall(1 + t.draw(12)),
+                _ => Ending::CancelAfter(1 + t.draw(16) as u32),
+            },
         });
         hlen += 1;
         rep.fire("sibling-request-before-target");
